@@ -102,6 +102,13 @@ M = [
     ("c17_unsub_not_forgotten", "C17", "client/service.go", "\t\t\t\tfor _, v := range cmd.topics {\n\t\t\t\t\ts.subscriptions.Empty(v)\n\t\t\t\t}\n", ""),
     ("c17_gives_up", "C17", "client/service.go", "\t\tclient, resumed := s.connect(kill)\n\t\tif client == nil {\n\t\t\tcontinue\n\t\t}", "\t\tclient, resumed := s.connect(kill)\n\t\tif client == nil {\n\t\t\tif s.backoff.Attempt() > 2 {\n\t\t\t\treturn nil\n\t\t\t}\n\t\t\tcontinue\n\t\t}"),
     ("c17_connack_race", "C17 C09 C15", "client/client.go", "\t// set state to connected\n\tatomic.StoreUint32(&c.state, clientConnected)\n\n\t// complete future\n\tc.connectFuture.Complete(connack)\n", "\t// set state to connected\n\tatomic.StoreUint32(&c.state, clientConnected)\n\n\t// complete future\n\tc.connectFuture.Complete(connack)\n\tpackets, _ = c.Session.AllPackets(session.Outgoing)\n"),
+    # ---- C03
+    ("c03_detection_4", "C03", "packet/stream.go", "\t\tif detectionLength > 5 {", "\t\tif detectionLength > 4 {"),
+    ("c03_limit_ge", "C03", "packet/stream.go", "\t\tif limit > 0 && int64(packetLength) > limit {", "\t\tif limit > 0 && int64(packetLength) >= limit {"),
+    ("c03_ws_text_messages", "C03", "transport/websocket_conn.go", "\twriter, err := s.conn.NextWriter(websocket.BinaryMessage)", "\twriter, err := s.conn.NextWriter(websocket.TextMessage)"),
+    ("c03_torn_is_eof", "C03", "packet/stream.go", "\t\tif err == io.EOF && len(header) != 0 {\n\t\t\t// an EOF with some data is unexpected\n\t\t\treturn nil, io.ErrUnexpectedEOF\n\t\t} else if err != nil {", "\t\tif err != nil {"),
+    ("c03_encoder_no_flush", "C03 C19", "packet/stream.go", "\t} else {\n\t\t_, err = e.writer.WriteAndFlush(buf)\n\t}", "\t} else {\n\t\t_, err = e.writer.Write(buf)\n\t}"),
+    ("c03_close_no_flush", "C03 C19", "transport/base_conn.go", "\t// flush buffer\n\terr1 := c.stream.Flush()\n", "\t// flush buffer\n\tvar err1 error\n"),
     # ---- C20
     ("c20_suback_reversed", "C20", "broker/client.go", "\t\tsuback.ReturnCodes[i] = subscription.QOS", "\t\tsuback.ReturnCodes[len(pkt.Subscriptions)-1-i] = subscription.QOS"),
     ("c20_ignore_unexpected", "C20 C14", "broker/client.go", "\tdefault:\n\t\terr = c.die(ClientError, ErrUnexpectedPacket)\n\t}\n\n\t// return eventual error", "\tdefault:\n\t}\n\n\t// return eventual error"),
